@@ -69,6 +69,12 @@ NewFile == /\ Idle /\ IsNone(file) /\ IsNone(cur) /\ Len(prog) < MaxFiles
                 /\ file' = [mod |-> m, fattrs |-> fa, mattrs |-> ma, defs |-> <<>>]
                 /\ scope' = <<JoinSegs(m, 1)>>
            /\ U(<<prog, cur, pend, ty, tops, cat, prevEnum, counter, ch, done>>)
+\* a file that consists of file attributes only: no module declaration, no definitions (legal; in a third of the programs)
+AttrOnlyFile == /\ Idle /\ IsNone(file) /\ IsNone(cur) /\ Len(prog) < MaxFiles /\ ch.seed % 3 = 0
+                /\ (prog # <<>> => prog[Len(prog)].mod # <<>>)
+                /\ \E fa \in Pick({<<a>> : a \in ForeignAttrs} \cup {<<a, b>> : a \in ForeignAttrs, b \in ForeignAttrs}) :
+                     prog' = Append(prog, [mod |-> <<>>, fattrs |-> fa, mattrs |-> <<>>, defs |-> <<>>])
+                /\ U(<<file, cur, pend, ty, tops, cat, scope, prevEnum, counter, ch, done>>)
 EndFile == /\ Idle /\ ~IsNone(file) /\ IsNone(cur) /\ Len(file.defs) >= 1
            /\ prog' = Append(prog, file) /\ file' = NoFile /\ scope' = <<>>
            /\ U(<<cur, pend, ty, tops, cat, prevEnum, counter, ch, done>>)
@@ -312,7 +318,7 @@ EndDef == /\ Idle /\ ~IsNone(cur)
 Finish == /\ Idle /\ IsNone(file) /\ IsNone(cur) /\ Len(prog) >= 1
           /\ done' = TRUE /\ U(<<prog, file, cur, pend, ty, tops, cat, scope, prevEnum, counter, ch>>)
 
-Next == \/ NewFile \/ EndFile \/ BeginStruct \/ AddField \/ AttachField
+Next == \/ NewFile \/ AttrOnlyFile \/ EndFile \/ BeginStruct \/ AddField \/ AttachField
         \/ TLeafPrim \/ TLeafNamed \/ TSeq \/ TDict \/ TRes \/ TOpt \/ TAttr
         \/ BeginEnum \/ AddEnumerator \/ AddEnumeratorField \/ AttachEnField
         \/ BeginInterface \/ AddOperation \/ AddParam \/ AddReturn \/ AttachParam \/ AttachReturn \/ CloseOperation
@@ -359,6 +365,7 @@ DefEvents(mod, d) ==
     [] d.k = "alias" -> <<[cb |-> "alias", id |-> id]>> \o TypeEvents(d.type)
 \* the file, then its module, then every definition in source order, containers before their contents
 Traversal(fl) == LET ef == ExpectFile(fl) IN
+                 IF fl.mod = <<>> THEN <<[cb |-> "file", id |-> ""]>> ELSE
                  <<[cb |-> "file", id |-> ""], [cb |-> "module", id |-> ef.module]>>
                  \o Concat([i \in 1..Len(ef.defs) |-> DefEvents(fl.mod, ef.defs[i])], 1)
 
